@@ -134,6 +134,10 @@ Distinct == \A x, y \in Given : got[x[1]][x[2]] = got[y[1]][y[2]] => x = y
 NonZero  == \A x \in Given : got[x[1]][x[2]] \in 1..MAX
 \* stronger than the statement, true of a locked generator: consecutive successors of the start value
 Consecutive == \A k \in 1..Len(order) : order[k] = SuccN(start, k)
+\* the closed form that spec/apalache/SeqGenInd.tla proves inductively for MAX = 2^32 - 1 and any number of draws: the k-th value
+\* handed out is F(start, k) (checked here on the history variable, for small MAX: this ties the two specifications)
+F(s, i) == ((s - 1 + i) % MAX) + 1
+OrderIsF == \A k \in 1..Len(order) : order[k] = F(start, k)
 \* the successor of MAX is 1, every other change is +1
 StepOk == [][seq' # seq => seq' = Succ(seq)]_seq
 =============================================================================
